@@ -35,29 +35,16 @@ impl SegmentWriter {
         let header_bytes_written = WAL_ENTRY_HEADER_SIZE as u32;
         let op_data_len = op_data.len() as u32;
 
-        self.writer.write_all(&op_version.get().to_le_bytes()).map_err(|io_err| {
-            WalError::WriteWalEntryDataIO {
-                op_version,
-                segment_id: self.segment_id,
-                source: io_err,
-            }
-        })?;
-        self.writer.write_all(op_hash.as_bytes()).map_err(|io_err| {
-            WalError::WriteWalEntryDataIO {
-                op_version,
-                segment_id: self.segment_id,
-                source: io_err,
-            }
-        })?;
-        self.writer.write_all(&op_data_len.to_le_bytes()).map_err(|io_err| {
-            WalError::WriteWalEntryDataIO {
-                op_version,
-                segment_id: self.segment_id,
-                source: io_err,
-            }
-        })?;
+        // Assemble the whole record first and hand it to the writer in one piece: a record
+        // pushed through the `BufWriter` in several parts is split into several `write(2)`
+        // calls once it exceeds the buffer, and a crash between them leaves a torn entry.
+        let mut record = Vec::with_capacity(WAL_ENTRY_HEADER_SIZE + op_data.len());
+        record.extend_from_slice(&op_version.get().to_le_bytes());
+        record.extend_from_slice(op_hash.as_bytes());
+        record.extend_from_slice(&op_data_len.to_le_bytes());
+        record.extend_from_slice(op_data);
 
-        self.writer.write_all(op_data).map_err(|io_err| WalError::WriteWalEntryDataIO {
+        self.writer.write_all(&record).map_err(|io_err| WalError::WriteWalEntryDataIO {
             op_version,
             segment_id: self.segment_id,
             source: io_err,
